@@ -179,3 +179,4 @@ add("C02.process_message","VH_c06_treat_as_withdraw",TBL,tc+["table/c06.go","tab
 add("C02.api_delete","VH_c02_api_delete",SRV,sc+["server/c02.go"],{"params":{},"unwind":2200},{"params":{},"unwind":2200},expect_reach=["end"],fixed_clock=True,bounds="BgpServer.AddPath / DeletePath(UUID) with the management loop running next to a peer's route for the same prefix (either order of arrival, symbolic MED)")
 add("C18.neighbor_families","VH_c18_neighbor_families",SRV,sc+["server/c18.go"],expect_reach=["end"],pins={"disposition":1,"med":0,"prepend_as":0},bounds="newNeighborFromAPIStruct on an API peer with two families, one carrying MP-GR / ADD-PATH / prefix-limit / LLGR / import-policy settings (symbolic numbers) and one bare, in either order")
 add("C18.api2path","VH_c18_api2path",SRV,sc+["server/c18.go"],expect_reach=["end"],bounds="toPathApi -> api2apiutilPath and -> api2Path (the AddPathStream conversion) for an IPv4 path with symbolic ORIGIN, MED, AS, path identifier, withdraw and from-external flags")
+add("C17.server_vrf","VH_c17_server_vrf",SRV,sc+["server/c17.go"],{"params":{"steps":2},"unwind":2200},{"params":{"steps":3},"unwind":2200},expect_reach=["imported","not_imported"],fixed_clock=True,bounds="real BgpServer.handleFSMMessage towards a peer attached to a VRF importing one target: every history of 2 (quick) / 3 events over {announce one VPN prefix with no / the imported / another / both targets, withdraw}")
